@@ -1,7 +1,7 @@
 """C19 — buffer pools hand out each buffer exclusively and always get it back."""
 import json
 
-from common import (Rng, assumptions, coq_bytes, coq_eval, coq_make, harness_build, hygiene, load_known, log, regen,
+from common import (coqchk, Rng, assumptions, coq_bytes, coq_eval, coq_make, harness_build, hygiene, load_known, log, regen,
                     run_harness, seed, write_evidence, write_replay, TRUSTED_BASE)
 
 PROP = "C19"
@@ -163,6 +163,10 @@ def run(tier, replay=None):
         broken.append("Props/C19.vo does not compile: " + (mk2 or "")[-1500:])
     elif [t for t in THEOREMS if closed.get(t) != "closed"]:
         broken.append("not closed under the global context: %s" % [t for t in THEOREMS if closed.get(t) != "closed"])
+    if thorough and ok_props:
+        okc, summ = coqchk(PROP)
+        if not okc:
+            broken.append("independent checker: " + summ)
     for prof in ("debug", "release"):
         okb, bout = harness_build(prof)
         if not okb:
